@@ -124,7 +124,9 @@ def run_spec(s, ans):
         bad.append(("success-mismatch", "returned %s, last run %s" % (status, "succeeded" if exp_status == "nil" else "failed")))
     if status == "err" and exp_status == "err" and not bad:
         bits = f[3]
-        if bits[TARGETS.index(reason)] != "1":
+        # a deadline scenario may end with either of the two reasons the property names for it
+        alt = "deadline" if reason == "waitdl" else reason
+        if bits[TARGETS.index(reason)] != "1" and bits[TARGETS.index(alt)] != "1":
             bad.append(("reason-not-matched:" + ("user" if reason[0] == "u" else reason),
                         "errors.Is(failure, %s) is false although that is why it stopped" % reason))
         if int(f[4]) > max(1, keep):
